@@ -13,7 +13,7 @@ CONSTANTS Seed, Stride
 Forms == <<"var", "lit", "binary", "neg", "call", "callarg", "assign", "chain", "opassign", "postinc", "preinc",
            "cond", "comma", "cast", "member", "deref", "index", "stmtexpr">>
 Types == <<"int", "long", "ptr", "float", "double", "ldouble", "small", "big">>
-Ctxs  == <<"exprstmt", "commalhs", "forinc", "condarm", "condarmvoid", "logand", "logor", "voidcast", "arg", "arg7", "vararg",
+Ctxs  == <<"exprstmt", "commalhs", "forinc", "condarm", "condarmvoid", "logand", "logor", "voidcast", "arg", "arg7", "oddnest", "vararg",
            "init", "return", "ifcond", "assignrhs", "stmtexprdiscard", "stmtexprvalue">>
 
 IsStruct(t) == t \in {"small", "big"}
@@ -28,6 +28,12 @@ Valid(f, t, c) ==
   \* "arg7": the value is the 8th argument after seven ints, so one 8-byte word (the 7th int) is passed on
   \* the stack next to it: an odd number of pending words while the argument itself is pushed
 
+(* A small family every subsample contains completely: a long double travelling as an argument (it is
+   spilled to the stack with its own rsp arithmetic), in every context - in particular with an even and
+   with an odd number of 8-byte temporaries pending ("oddnest": the call is the left operand of `+`,
+   evaluated after the right operand has been pushed).                                               *)
+Always(f, t, c) == t = "ldouble" /\ (f = "callarg" \/ c \in {"arg", "arg7", "oddnest", "vararg"})
+
 VARIABLES fi, ti, ci, out
 vars == <<fi, ti, ci, out>>
 
@@ -35,7 +41,7 @@ Index == ((fi - 1) * Len(Types) + (ti - 1)) * Len(Ctxs) + (ci - 1)
 
 Init == /\ fi \in 1..Len(Forms) /\ ti \in 1..Len(Types) /\ ci \in 1..Len(Ctxs)
         /\ Valid(Forms[fi], Types[ti], Ctxs[ci])
-        /\ (Index * 7919 + Seed) % Stride = 0
+        /\ ((Index * 7919 + Seed) % Stride = 0 \/ Always(Forms[fi], Types[ti], Ctxs[ci]))
         /\ out = FALSE
 
 EmitCase == /\ ~out /\ out' = TRUE /\ UNCHANGED <<fi, ti, ci>>
